@@ -560,7 +560,7 @@ def join (e : Env) (base ref : Url) : Url :=
       if !ref.path.isEmpty then
         let p :=
           if ref.path.head? = some 47 then ref.path
-          else if base.path.isEmpty then 47 :: ref.path
+          else if base.path.isEmpty then (if !base.netloc.isEmpty then 47 :: ref.path else ref.path)
           else if base.path.getLast? = some 47 then base.path ++ ref.path
           else
             let merged := joinC 47 ((rawParts base).dropLast ++ [[]]) ++ ref.path
